@@ -94,12 +94,18 @@ theorem loSetPred_snoc (h0 : List PyRt.Leftover) (x : PyRt.Leftover) (p : Option
 theorem loGet_snoc (h0 : List PyRt.Leftover) (x : PyRt.Leftover) : PyRt.loGet (h0 ++ [x]) h0.length = x := by
   simp [PyRt.loGet]
 
+/-- the variables of `for row in between: …`: `new_scffld` (a reference into the arena) and the arena.  The ORDER in which the
+    translator carries them (alphabetical: `heap_lo`, `new_scffld`) is named here, in `ASt` / `ast`, and nowhere else -/
+abbrev ASt := List PyRt.Leftover × Nat
+/-- the loop state of `for row in between` with reference `r` and arena `h` -/
+abbrev ast (r : Nat) (h : List PyRt.Leftover) : ASt := (h, r)
+
 /-- `for row in between: new_scffld.add_row(row)` on the object created last -/
-theorem forIn_addRows {ρ : Type} (body : Row → Nat × List PyRt.Leftover → R (PyRt.Ctl (Nat × List PyRt.Leftover) ρ))
-    (hbody : ∀ row r h, body row (r, h) = .ok (.next (r, PyRt.loSet h r (fun sc => { sc with rows := sc.rows ++ [row] }))))
+theorem forIn_addRows {ρ : Type} (body : Row → ASt → R (PyRt.Ctl ASt ρ))
+    (hbody : ∀ row r h, body row (ast r h) = .ok (.next (ast r (PyRt.loSet h r (fun sc => { sc with rows := sc.rows ++ [row] })))))
     (between : List Row) (h0 : List PyRt.Leftover) (x : PyRt.Leftover) :
-    PyRt.forIn between (h0.length, h0 ++ [x]) body
-      = .ok (.fell (h0.length, h0 ++ [({ x.1 with rows := x.1.rows ++ between }, x.2)])) := by
+    PyRt.forIn between (ast h0.length (h0 ++ [x])) body
+      = .ok (.fell (ast h0.length (h0 ++ [({ x.1 with rows := x.1.rows ++ between }, x.2)]))) := by
   induction between generalizing x with
   | nil => simp [PyRt.forIn]
   | cons row rest ih =>
@@ -152,8 +158,11 @@ theorem sepBefore_some (b : Build) (g : Gap) (hg : b.joinGap = some g) (rows : L
 
 /-! ### 4. the inner loop: `for i, frag in scffld.idx_fragments()` = the loop of `missingRows` -/
 
-/-- the variables of the inner loop: `last_added_i`, `new_scffld` (a reference into the arena), the arena -/
-abbrev ISt := Option Int × Option Nat × List PyRt.Leftover
+/-- the variables of the inner loop: `last_added_i`, `new_scffld` (a reference into the arena), the arena.  The ORDER in which the
+    translator carries them (alphabetical: `heap_lo`, `last_added_i`, `new_scffld`) is named here, in `ISt` / `ist`, and nowhere else -/
+abbrev ISt := List PyRt.Leftover × Option Int × Option Nat
+/-- the state of the inner loop with `last_added_i = la`, `new_scffld = r`, arena `h` -/
+abbrev ist (la : Option Int) (r : Option Nat) (h : List PyRt.Leftover) : ISt := (h, la, r)
 /-- the accumulator of the model's loop: the rows so far, the index of the row added last, the index of the first row added -/
 abbrev MAcc := List Row × Option Nat × Option Nat
 
@@ -163,9 +172,9 @@ def mkLo (sc : Scaffold) (out : List Row) : Scaffold := { name := sc.name, rows 
 /-- the source's loop variables for a state of the model's loop (`h0` = the arena when the loop starts) -/
 def enc (sc : Scaffold) (h0 : List PyRt.Leftover) (acc : MAcc) : ISt :=
   match acc.1 with
-  | [] => (none, none, h0)
-  | _ :: _ => (acc.2.1.map (fun (l : Nat) => (l : Int)), some h0.length,
-      h0 ++ [(mkLo sc acc.1, (acc.2.2.bind (inputPredecessor sc.rows)).map predToRows)])
+  | [] => ist none none h0
+  | _ :: _ => ist (acc.2.1.map (fun (l : Nat) => (l : Int))) (some h0.length)
+      (h0 ++ [(mkLo sc acc.1, (acc.2.2.bind (inputPredecessor sc.rows)).map predToRows)])
 
 /-- reachable states of the model's loop before row `k`: nothing added yet, or something added and the last one before `k` -/
 def InnerInv (k : Nat) (acc : MAcc) : Prop :=
@@ -177,8 +186,8 @@ theorem InnerInv.mono {k k' : Nat} {acc : MAcc} (h : InnerInv k acc) (hk : k ≤
   · exact Or.inr ⟨out, l, fi, h1, by omega, h3⟩
 
 theorem enc_ne (sc : Scaffold) (h0 : List PyRt.Leftover) (out : List Row) (la fi : Option Nat) (h : out ≠ []) :
-    enc sc h0 (out, la, fi) = (la.map (fun (l : Nat) => (l : Int)), some h0.length,
-      h0 ++ [(mkLo sc out, (fi.bind (inputPredecessor sc.rows)).map predToRows)]) := by
+    enc sc h0 (out, la, fi) = ist (la.map (fun (l : Nat) => (l : Int))) (some h0.length)
+      (h0 ++ [(mkLo sc out, (fi.bind (inputPredecessor sc.rows)).map predToRows)]) := by
   cases out with
   | nil => exact (h rfl).elim
   | cons a r => rfl
@@ -189,11 +198,11 @@ theorem inner_gen {ρ : Type} (b : Build) (g : Gap) (hg : b.joinGap = some g)
     (body : Int × Fragment → ISt → R (PyRt.Ctl ISt ρ))
     (hfound : ∀ i f st, (dGet? found f.keyTuple).isSome = true → body (i, f) st = .ok (.next st))
     (hnew : ∀ (i : Nat) f, (dGet? found f.keyTuple).isSome = false →
-        body ((i : Int), f) (none, none, h0) = .ok (.next (some (i : Int), some h0.length,
-          h0 ++ [(mkLo sc [Row.frag f], (inputPredecessor sc.rows i).map predToRows)])))
+        body ((i : Int), f) (ist none none h0) = .ok (.next (ist (some (i : Int)) (some h0.length)
+          (h0 ++ [(mkLo sc [Row.frag f], (inputPredecessor sc.rows i).map predToRows)]))))
     (hmore : ∀ (l i : Int) f x, (dGet? found f.keyTuple).isSome = false →
-        body (i, f) (some l, some h0.length, h0 ++ [x]) = .ok (.next (some i, some h0.length,
-          h0 ++ [({ x.1 with rows := x.1.rows ++ srcSep sc.rows g l i ++ [Row.frag f] }, x.2)])))
+        body (i, f) (ist (some l) (some h0.length) (h0 ++ [x])) = .ok (.next (ist (some i) (some h0.length)
+          (h0 ++ [({ x.1 with rows := x.1.rows ++ srcSep sc.rows g l i ++ [Row.frag f] }, x.2)]))))
     (rs : List Row) : ∀ (k : Nat), k + rs.length ≤ sc.rows.length → ∀ acc, InnerInv k acc →
       ∃ acc', ((List.range' k rs.length).zip rs).foldlM (missStep b sc.rows) acc = .ok acc' ∧
         InnerInv (k + rs.length) acc' ∧
@@ -229,7 +238,7 @@ theorem inner_gen {ρ : Type} (b : Build) (g : Gap) (hg : b.joinGap = some g)
           · rw [missStep_missing b sc.rows [] none none k f hf]
             exact h1
           · rw [PyRt.idxFragmentsFrom, PyRt.forIn]
-            have : enc sc h0 ([], none, none) = (none, none, h0) := rfl
+            have : enc sc h0 ([], none, none) = ist none none h0 := rfl
             rw [this, hnew k f hf', hcast]
             rw [enc_ne sc h0 [Row.frag f] (some k) (some k) (by simp)] at h3
             exact h3
@@ -254,13 +263,13 @@ theorem inner_top {ρ : Type} (b : Build) (g : Gap) (hg : b.joinGap = some g)
     (body : Int × Fragment → ISt → R (PyRt.Ctl ISt ρ))
     (hfound : ∀ i f st, (dGet? found f.keyTuple).isSome = true → body (i, f) st = .ok (.next st))
     (hnew : ∀ (i : Nat) f, (dGet? found f.keyTuple).isSome = false →
-        body ((i : Int), f) (none, none, h0) = .ok (.next (some (i : Int), some h0.length,
-          h0 ++ [(mkLo sc [Row.frag f], (inputPredecessor sc.rows i).map predToRows)])))
+        body ((i : Int), f) (ist none none h0) = .ok (.next (ist (some (i : Int)) (some h0.length)
+          (h0 ++ [(mkLo sc [Row.frag f], (inputPredecessor sc.rows i).map predToRows)]))))
     (hmore : ∀ (l i : Int) f x, (dGet? found f.keyTuple).isSome = false →
-        body (i, f) (some l, some h0.length, h0 ++ [x]) = .ok (.next (some i, some h0.length,
-          h0 ++ [({ x.1 with rows := x.1.rows ++ srcSep sc.rows g l i ++ [Row.frag f] }, x.2)]))) :
+        body (i, f) (ist (some l) (some h0.length) (h0 ++ [x])) = .ok (.next (ist (some i) (some h0.length)
+          (h0 ++ [({ x.1 with rows := x.1.rows ++ srcSep sc.rows g l i ++ [Row.frag f] }, x.2)])))) :
     ∃ acc : MAcc, missingRows b sc.rows = .ok (acc.1, acc.2.2) ∧ InnerInv sc.rows.length acc ∧
-      PyRt.forIn (PyRt.idxFragments sc.rows) (none, none, h0) body = .ok (.fell (enc sc h0 acc)) := by
+      PyRt.forIn (PyRt.idxFragments sc.rows) (ist none none h0) body = .ok (.fell (enc sc h0 acc)) := by
   obtain ⟨acc, h1, h2, h3⟩ := inner_gen b g hg found hkeys sc h0 body hfound hnew hmore sc.rows 0 (by omega) ([], none, none) (Or.inl rfl)
   refine ⟨acc, ?_, by simpa using h2, ?_⟩
   · rw [missingRows_eq, List.range_eq_range', h1]; rfl
@@ -268,8 +277,11 @@ theorem inner_top {ρ : Type} (b : Build) (g : Gap) (hg : b.joinGap = some g)
 
 /-! ### 5. one pass of the outer loop = the model's `amStep` -/
 
-/-- the variables of the outer loop: the arena, the namer object, the references passed to `self.add_scaffold` -/
-abbrev OSt := List PyRt.Leftover × PyRt.SrcNamer × List Nat
+/-- the variables of the outer loop: the arena, the namer object, the references passed to `self.add_scaffold`.  The ORDER in which the
+    translator carries them (alphabetical: `added_lo`, `heap_lo`, `self_scaffold_namer`) is named here, in `OSt` / `ost`, and nowhere else -/
+abbrev OSt := List Nat × List PyRt.Leftover × PyRt.SrcNamer
+/-- the state of the outer loop with arena `h`, namer `s`, references `a` -/
+abbrev ost (h : List PyRt.Leftover) (s : PyRt.SrcNamer) (a : List Nat) : OSt := (a, h, s)
 
 /-- loop body of the model's `addMissing` (verbatim) -/
 def amStep (b : Build) (sc : Scaffold) : R Build := do
@@ -298,12 +310,15 @@ theorem loModel_loSrc (e : Scaffold × Option (Fragment × List Gap)) : loModel 
   | none => rfl
   | some p => simp [loModel, loSrc, predOfRows_predToRows]
 
-/-- the loop variables of the source against the model's build state: `b0` = the state before `add_missing` -/
-structure OSim (b0 : Build) (st : OSt) (b : Build) : Prop where
-  added : st.2.2 = List.range st.1.length
-  wf : WFNamer st.2.1
-  eq : b = { b0 with namer := absNamer st.2.1, extra := b0.extra ++ st.1.map loModel }
-  lossless : ∀ x ∈ st.1, loSrc (loModel x) = x
+/-- the loop variables of the source (arena, namer, references) against the model's build state: `b0` = the state before `add_missing` -/
+structure OSim' (b0 : Build) (heap : List PyRt.Leftover) (s : PyRt.SrcNamer) (added : List Nat) (b : Build) : Prop where
+  added : added = List.range heap.length
+  wf : WFNamer s
+  eq : b = { b0 with namer := absNamer s, extra := b0.extra ++ heap.map loModel }
+  lossless : ∀ x ∈ heap, loSrc (loModel x) = x
+
+/-- … as a relation on the loop state -/
+def OSim (b0 : Build) (st : OSt) (b : Build) : Prop := ∃ heap s added, st = ost heap s added ∧ OSim' b0 heap s added b
 
 /-- what the end of a pass does to the object: the `Contaminant` tag when targets are in use and this input scaffold has none, the
     haplotype -/
@@ -348,20 +363,20 @@ theorem outer_step {ρ₁ ρ₂ : Type} (b0 : Build) (g : Gap) (hg : b0.joinGap 
     (hmk : ∀ s sc, WFNamer s → (mk s sc).map absNamer = makeScaffoldName (absNamer s) sc.name sc.rows sc.fragmentTags)
     (hwf : ∀ s sc s', WFNamer s → mk s sc = .ok s' → WFNamer s')
     (sc : Scaffold) (heap : List PyRt.Leftover) (s : PyRt.SrcNamer) (added : List Nat) (b : Build)
-    (hsim : OSim b0 (heap, s, added) b)
+    (hsim : OSim' b0 heap s added b)
     (body : Int × Fragment → ISt → R (PyRt.Ctl ISt ρ₁))
     (hfound : ∀ i f st, (dGet? found f.keyTuple).isSome = true → body (i, f) st = .ok (.next st))
     (hnew : ∀ (i : Nat) f, (dGet? found f.keyTuple).isSome = false →
-        body ((i : Int), f) (none, none, heap) = .ok (.next (some (i : Int), some heap.length,
-          heap ++ [(mkLo sc [Row.frag f], (inputPredecessor sc.rows i).map predToRows)])))
+        body ((i : Int), f) (ist none none heap) = .ok (.next (ist (some (i : Int)) (some heap.length)
+          (heap ++ [(mkLo sc [Row.frag f], (inputPredecessor sc.rows i).map predToRows)]))))
     (hmore : ∀ (l i : Int) f x, (dGet? found f.keyTuple).isSome = false →
-        body (i, f) (some l, some heap.length, heap ++ [x]) = .ok (.next (some i, some heap.length,
-          heap ++ [({ x.1 with rows := x.1.rows ++ srcSep sc.rows g l i ++ [Row.frag f] }, x.2)])))
+        body (i, f) (ist (some l) (some heap.length) (heap ++ [x])) = .ok (.next (ist (some i) (some heap.length)
+          (heap ++ [({ x.1 with rows := x.1.rows ++ srcSep sc.rows g l i ++ [Row.frag f] }, x.2)]))))
     (K : PyRt.Done ISt ρ₁ → R (PyRt.Ctl OSt ρ₂))
-    (hKnone : ∀ la h, K (.fell (la, none, h)) = .ok (.next (h, s, added)))
-    (hKsome : ∀ la r h, K (.fell (la, some r, h))
-        = (mk s (PyRt.loGet h r).1 >>= fun s' => .ok (.next (finish sc h r s', s', added ++ [r])))) :
-    RelC (OSim b0) (PyRt.forIn (PyRt.idxFragments sc.rows) (none, none, heap) body >>= K) (amStep b sc) := by
+    (hKnone : ∀ la h, K (.fell (ist la none h)) = .ok (.next (ost h s added)))
+    (hKsome : ∀ la r h, K (.fell (ist la (some r) h))
+        = (mk s (PyRt.loGet h r).1 >>= fun s' => .ok (.next (ost (finish sc h r s') s' (added ++ [r]))))) :
+    RelC (OSim b0) (PyRt.forIn (PyRt.idxFragments sc.rows) (ist none none heap) body >>= K) (amStep b sc) := by
   have hb := hsim.eq
   have hjg : b.joinGap = some g := by rw [hb]; exact hg
   have hfd : b.found = b0.found := by rw [hb]
@@ -371,9 +386,9 @@ theorem outer_step {ρ₁ ρ₂ : Type} (b0 : Build) (g : Gap) (hg : b0.joinGap 
   rw [h1]
   rcases h2 with rfl | ⟨out, l, fi, hne, -, rfl⟩
   · -- every contig of this input scaffold was placed: no object, nothing changes
-    have : enc sc heap ([], none, none) = (none, none, heap) := rfl
+    have : enc sc heap ([], none, none) = ist none none heap := rfl
     rw [this, hKnone]
-    exact hsim
+    exact ⟨heap, s, added, rfl, hsim⟩
   · rw [enc_ne sc heap out (some l) (some fi) hne, hKsome, loGet_snoc]
     have hemp : out.isEmpty = false := by cases out with | nil => exact (hne rfl).elim | cons a r => rfl
     have hnm : absNamer s = b.namer := by rw [hb]
@@ -390,7 +405,7 @@ theorem outer_step {ρ₁ ρ₂ : Type} (b0 : Build) (g : Gap) (hg : b0.joinGap 
       have hwf' := hwf s _ s' hsim.wf hmk'
       have hadd : added = List.range heap.length := hsim.added
       have hloss : ∀ x ∈ heap, loSrc (loModel x) = x := hsim.lossless
-      show OSim b0 _ _
+      refine ⟨_, _, _, rfl, ?_⟩
       rw [finish_snoc]
       have htgt : ("Target".toList : Str) = sTarget := by decide
       have hcon : ("Contaminant".toList : Str) = sContaminant := by decide
@@ -415,19 +430,19 @@ theorem whole_refines {ρ : Type} (b : Build) (s : PyRt.SrcNamer) (hs : WFNamer 
     (outer : Scaffold → OSt → R (PyRt.Ctl OSt ρ))
     (hstep : ∀ sc st b', OSim b st b' → RelC (OSim b) (outer sc st) (amStep b' sc))
     (fin : PyRt.Done OSt ρ → R (List PyRt.Leftover × List Nat × PyRt.SrcNamer))
-    (hfin : ∀ h s' a, fin (.fell (h, s', a)) = .ok (h, a, s'))
+    (hfin : ∀ h s' a, fin (.fell (ost h s' a)) = .ok (h, a, s'))
     (input : List Scaffold) :
-    (∀ heap added s', (PyRt.forIn input ([], s, []) outer >>= fin) = .ok (heap, added, s') →
+    (∀ heap added s', (PyRt.forIn input (ost [] s []) outer >>= fin) = .ok (heap, added, s') →
         added = List.range heap.length ∧ WFNamer s' ∧ (∀ x ∈ heap, loSrc (loModel x) = x) ∧
         addMissing input b = .ok { b with namer := absNamer s', extra := b.extra ++ heap.map loModel }) ∧
-    (∀ e, (PyRt.forIn input ([], s, []) outer >>= fin) = .error e → addMissing input b = .error e) := by
-  have hsim0 : OSim b ([], s, []) b := by
-    refine ⟨rfl, hs, ?_, fun x hx => by cases hx⟩
+    (∀ e, (PyRt.forIn input (ost [] s []) outer >>= fin) = .error e → addMissing input b = .error e) := by
+  have hsim0 : OSim b (ost [] s []) b := by
+    refine ⟨[], s, [], rfl, rfl, hs, ?_, fun x hx => by cases hx⟩
     show b = { b with namer := absNamer s, extra := b.extra ++ [] }
     rw [habs, List.append_nil]
-  have key := forIn_sim (OSim b) outer amStep hstep input ([], s, []) b hsim0
+  have key := forIn_sim (OSim b) outer amStep hstep input (ost [] s []) b hsim0
   rw [addMissing_eq]
-  cases hl : PyRt.forIn input ([], s, []) outer with
+  cases hl : PyRt.forIn input (ost [] s []) outer with
   | error e =>
     rw [hl] at key
     cases hm : input.foldlM amStep b with
@@ -447,8 +462,7 @@ theorem whole_refines {ρ : Type} (b : Build) (s : PyRt.SrcNamer) (hs : WFNamer 
       cases d with
       | returned r => exact key.elim
       | fell st =>
-        obtain ⟨heap, s1, added⟩ := st
-        have key : OSim b (heap, s1, added) b' := key
+        obtain ⟨heap, s1, added, rfl, key⟩ : OSim b st b' := key
         rw [ok_bind, hfin]
         refine ⟨fun heap' added' s' h => ?_, fun e h => (by cases h)⟩
         cases h
